@@ -741,7 +741,9 @@ struct TemplateCore {
                     // (in the loop and in every variable that refers to it); a loop inside 256 loops stays text.
                     const SizeT level = ((loop_tag != nullptr) ? (SizeT(loop_tag->Level) + SizeT{1}) : SizeT{0});
 
-                    if ((offset < end_offset) && (level < SizeT{256})) {
+                    // Inside an inline tag, '}' closes whatever is on top of parent_storage, so a loop may not be
+                    // opened there: it could be dropped with an enclosing tag while loop_tag still points to it.
+                    if ((offset < end_offset) && !is_child && (level < SizeT{256})) {
                         LoopTag *tag = (storage->Insert(TagBit{})).MakeLoopTag();
                         tag->Offset  = loop_offset;
                         tag->Parent  = loop_tag;
